@@ -46,7 +46,7 @@ size_t GB;           /* arbitrary byte index into a socket address */
  * measured); sub-structs are the units of the assigns clauses: G.cl (close path), G.ep (epoll interest), G.tx (send/sendto), G.rx (receive path). */
 struct iora_udp_ghost {
   struct { unsigned closeCb_calls; SessionId closeCb_sid; bool closeCb_erased; bool closeCb_locked; TransportError closeCb_why;
-           unsigned close_calls; int close_fd; unsigned delEpoll_calls; int delEpoll_fd; unsigned delEpoll_closes_before; unsigned closeCb_calls_w; /* callbacks for the witness id GSID */ } cl;
+           unsigned close_calls; int close_fd; unsigned delEpoll_calls; int delEpoll_fd; unsigned delEpoll_closes_before; unsigned closeCb_calls_w; /* callbacks for the witness id GSID */ bool erased_w, flag_w, locked_w; TransportError why_w; size_t closeCb_total; } cl;
   struct { unsigned modEpoll_calls; int modEpoll_fd; uint32_t modEpoll_ev; } ep;
   struct { size_t front_lo; size_t calls, ok, again, err; bool is_sendto; int fd; const uint8_t *p; int n; socklen_t tolen; uint8_t to_gb; int flags; int ret; int err_no;
            size_t w_calls; const uint8_t *w_p; int w_n; socklen_t w_tolen; uint8_t w_to_gb; } tx;
@@ -184,6 +184,12 @@ static inline void iora_map1_peer_try_emplace(iora_map1_peer *m, iora_strid k, S
 #define IORA_TBL_N 3
 typedef struct { bool present[IORA_TBL_N]; Session *e[IORA_TBL_N]; } iora_tbl3;
 typedef iora_tbl3 IORA_SESS_T;
+#elif defined(IORA_UDP_ITERMAP)
+/* UNBOUNDED table for code that ITERATES over _sessions: the witness-key map plus an iteration ghost.  The table has n entries (n arbitrary); iteration
+ * visits positions 0..n-1; the witness session (id GSID), if present, sits at the arbitrary position gpos < n; every other position yields the scratch
+ * object *other re-filled with arbitrary content (id != GSID).  Erasing while a range-for is running is not modelled (the code collects first). */
+typedef struct { bool has; Session *val; Session *other; size_t n; size_t gpos; } iora_smapit;
+typedef iora_smapit IORA_SESS_T;
 #else
 typedef iora_map1_sess IORA_SESS_T;
 #endif
@@ -206,7 +212,27 @@ static inline void iora_map1_tags_erase(iora_map1_tags *m, int fd) { if (fd == G
 static inline iora_lst_it iora_map1_lst_find(const iora_map1_lst *m, ListenerId k)
 { iora_lst_it it; if (k == GLID) { it.end = !m->has; it.second = m->val; } else { it.end = nondet_bool(); it.second = m->other; } return it; }
 
-typedef struct UdpEngine { TransportConfig _config; AtomicStats _atomicStats; int _epollFd; iora_mutex _cbMutex; Callbacks _cbs; iora_mutex _sessionRwMutex;
+#ifdef IORA_UDP_CMDQ
+/* the command queue std::deque<Cmd> as a ghost sequence with the element at the arbitrary position GQ stored; CmdType is extracted from the header */
+typedef struct { bool set; unsigned fulfilled; bool value; } iora_promise;      /* shared_ptr<promise<bool>>: set = non-null */
+typedef struct { CmdType t; struct { SessionId sid; } c; struct { SessionId sid; ListenerId lid; } v; SessionId closeSid; iora_promise listenerReady; } Cmd;
+typedef struct { size_t n; Cmd w; Cmd other; } iora_cmdq;
+#define iora_cmdq_DEFAULT ((iora_cmdq){0})
+static inline void iora_cmdq_swap_(iora_cmdq *a, iora_cmdq *b) { iora_cmdq t = *a; *a = *b; *b = t; }
+#define iora_cmdq_swap(a, b) iora_cmdq_swap_((a), &(b))      /* deque::swap(other&) */
+/* element j: the witness command at position GQ, otherwise an arbitrary command that does not carry the witness session id (ids are issued once) */
+static inline Cmd *iora_cmdq_at(iora_cmdq *q, size_t j)
+{ IORA_ASSERT(j < q->n, "deque iteration in range"); if (j == GQ) return &q->w;
+  Cmd nd; nd.listenerReady.set = nondet_bool(); nd.listenerReady.fulfilled = 0; nd.listenerReady.value = 0;
+  IORA_ASSUME(!(nd.t == CmdType_Connect && nd.c.sid == GSID) && !(nd.t == CmdType_Via && nd.v.sid == GSID)); q->other = nd; return &q->other; }
+#define EXC_future_error 7
+/* promise::set_value: fulfils the promise, or throws std::future_error (already satisfied / no state) */
+static inline void iora_promise_set_value(iora_promise *p, bool v) { if (nondet_bool()) { iora_exc = EXC_future_error; return; } if (p->fulfilled < 1000u) p->fulfilled++; p->value = v; }
+#define IORA_CMDQ_FIELDS iora_mutex _qmx; iora_cmdq _q; bool _qClosed; int _eventFd;
+#else
+#define IORA_CMDQ_FIELDS
+#endif
+typedef struct UdpEngine { IORA_CMDQ_FIELDS TransportConfig _config; AtomicStats _atomicStats; int _epollFd; iora_mutex _cbMutex; Callbacks _cbs; iora_mutex _sessionRwMutex;
   iora_map1_lst _listeners; IORA_SESS_T _sessions; iora_map1_peer _peerIndex; iora_map1_tags _tags; SessionId _nextSessionId; } UdpEngine;
 /* R11 lock guards, sequential model.  `std::lock_guard<std::mutex> g(M);` / `std::unique_lock<std::shared_mutex> g(M);` -> IORA_LOCK_GUARD(g, M);
  * the unit plugin inserts IORA_UNLOCK_GUARD(g, M); at the end of the guard's block.  Direct flag access on purpose: the pointer-carrying
@@ -247,8 +273,48 @@ static inline void iora_idvec3_reserve(iora_idvec3 *v, size_t n) { (void)v; (voi
 static inline void iora_ptrvec3_push_back(iora_ptrvec3 *v, Session *s) { IORA_ASSERT(v->n < IORA_TBL_N, "bounded stand-in: at most 3 elements"); v->v[v->n++] = s; }
 static inline void iora_idvec3_push_back(iora_idvec3 *v, SessionId s) { IORA_ASSERT(v->n < IORA_TBL_N, "bounded stand-in: at most 3 elements"); v->v[v->n++] = s; }
 #define IORA_SESS_CONTAINS(self, sid) iora_tbl3_contains(&(self)->_sessions, (sid))
+#elif defined(IORA_UDP_ITERMAP)
+#define IORA_SESS_CONTAINS(self, sid) ((sid) == GSID && (self)->_sessions.has)
+/* ghost of the iteration: how many OPEN sessions (and open connected clients) the sequences have yielded */
+struct { size_t open_seen, open_clients; } GIT;
+Session *G_wit_ptr;                 /* the witness session object (assigned by the harness) */
+bool G_wit_destroyed;               /* the witness object was destroyed by erase/clear.  It is NOT freed in this model: under a (non-DFCC) loop contract the havoc of
+                                     * __CPROVER_deallocated makes every later access look like a use-after-free.  Use after erase is decided with real frees in the bounded
+                                     * cross-check (udp_close_sites) and for closeNow itself (udp_close). */
+static inline Session *iora_yield_other(Session *o)
+{ Session nd; *o = nd; o->closed = nondet_bool(); o->wantWrite = nondet_bool(); o->connectPending = nondet_bool();
+  IORA_ASSUME(o->id != GSID && o->wq.lo <= o->wq.hi && o->lastActivity >= 0 && o->created >= 0 && o->connectStart >= 0 && o->lastWriteProgress >= 0); return o; }
+static inline void iora_count_open(const Session *s) { if (!s->closed) { GIT.open_seen++; if (s->role == Role_ClientConnected) GIT.open_clients++; } }
+static inline size_t iora_smapit_size(const iora_smapit *m) { return m->n; }
+static inline Session *iora_smapit_at(iora_smapit *m, size_t i)
+{ IORA_ASSERT(i < m->n, "map iteration stays inside the table"); if (m->has && i == m->gpos) return m->val; return iora_yield_other(m->other); }
+static inline iora_sess_it iora_smapit_find(iora_smapit *m, SessionId k)
+{ iora_sess_it it; if (k == GSID) { it.end = !m->has; it.second = m->val; }
+  else { it.end = nondet_bool(); it.second = iora_yield_other(m->other); m->other->id = k; } return it; }
+static inline void iora_smapit_erase(iora_smapit *m, SessionId k)
+{ IORA_SESS_GUARDED(m); if (k == GSID) { if (m->has) { m->has = false; G_wit_destroyed = true; IORA_ASSERT(m->n > 0, "iteration ghost: a present entry is counted"); m->n--; } }
+  else if (m->n > (m->has ? 1u : 0u) && nondet_bool()) m->n--; }
+static inline void iora_smapit_clear(iora_smapit *m) { IORA_SESS_GUARDED(m); if (m->has) { m->has = false; G_wit_destroyed = true; } m->n = 0; }
+/* std::vector<Session*> / std::vector<SessionId> filled from that table, as ghost sequences with the witness element */
+typedef struct { size_t n; bool has_w; size_t wpos; } iora_ptrseq;
+typedef struct { size_t n; bool has_w; size_t wpos; } iora_idseq;
+#define iora_ptrseq_DEFAULT ((iora_ptrseq){0, 0, 0})
+#define iora_idseq_DEFAULT ((iora_idseq){0, 0, 0})
+static inline void iora_ptrseq_reserve(iora_ptrseq *v, size_t n) { (void)v; (void)n; }
+static inline void iora_idseq_reserve(iora_idseq *v, size_t n) { (void)v; (void)n; }
+static inline void iora_ptrseq_push_back(iora_ptrseq *v, Session *s) { IORA_ASSERT(v->n < (size_t)-1, "ghost length does not wrap"); if (s == G_wit_ptr) { v->has_w = true; v->wpos = v->n; } v->n++; }
+static inline void iora_idseq_push_back(iora_idseq *v, SessionId id) { IORA_ASSERT(v->n < (size_t)-1, "ghost length does not wrap"); if (id == GSID) { IORA_ASSERT(!v->has_w, "a session id is collected at most once"); v->has_w = true; v->wpos = v->n; } v->n++; }
+static inline Session *iora_ptrseq_get(const iora_ptrseq *v, size_t j, Session *other)
+{ IORA_ASSERT(j < v->n, "vector iteration in range"); Session *s = (v->has_w && j == v->wpos) ? G_wit_ptr : iora_yield_other(other); iora_count_open(s); return s; }
+static inline SessionId iora_idseq_get(const iora_idseq *v, size_t j)
+{ IORA_ASSERT(j < v->n, "vector iteration in range"); if (v->has_w && j == v->wpos) return GSID; SessionId k = nondet_u64(); IORA_ASSUME(k != GSID); return k; }
 #else
 #define IORA_SESS_CONTAINS(self, sid) ((sid) == GSID && (self)->_sessions.has)
+#endif
+#ifdef IORA_UDP_ITERMAP
+#define IORA_WITNESS_FLAG_AT_CB(self) (G.cl.flag_w = (self)->_sessions.has && (self)->_sessions.val->closed)
+#else
+#define IORA_WITNESS_FLAG_AT_CB(self) ((void)0)
 #endif
 /* unit-specific observation hooks of the callback stubs (default: none) */
 #ifndef IORA_ON_CLOSE_HOOK
@@ -294,7 +360,9 @@ static inline void iora_cb_onClose_call(UdpEngine *self, iora_cb_onClose cb, Ses
 { (void)m; (void)err; IORA_ASSERT(cb.set, "std::function called only when non-empty");
   IORA_BUMP(G_closeCb_calls); G_closeCb_sid = sid; G_closeCb_why = why;
   G_closeCb_erased = !IORA_SESS_CONTAINS(self, sid);        /* was the session already out of the table when the application heard of the close? */
-  G_closeCb_locked = !IORA_NO_LOCK_HELD(self); if (sid == GSID) IORA_BUMP(G.cl.closeCb_calls_w); IORA_ON_CLOSE_HOOK(self, sid); }
+  G_closeCb_locked = !IORA_NO_LOCK_HELD(self); G.cl.closeCb_total++;
+  if (sid == GSID) { IORA_BUMP(G.cl.closeCb_calls_w); G.cl.erased_w = G_closeCb_erased; G.cl.locked_w = G_closeCb_locked; G.cl.why_w = why; IORA_WITNESS_FLAG_AT_CB(self); }
+  IORA_ON_CLOSE_HOOK(self, sid); }
 static inline void iora_cb_onError_call(UdpEngine *self, iora_cb_onError cb, TransportError e)
 { (void)self; (void)e; IORA_ASSERT(cb.set, "std::function called only when non-empty"); IORA_BUMP(G_errorCb_calls); }
 
